@@ -4,6 +4,8 @@ package main
 
 import (
 	"fmt"
+	"go/token"
+	"go/types"
 	"sort"
 	"strings"
 
@@ -82,7 +84,7 @@ func checkC11(R *Run) {
 			c := ci.Common()
 			n := calleeName(c)
 			if n == "(hotline.FileStore).Remove" || n == "(hotline.FileStore).RemoveAll" || n == "os.Remove" || n == "os.RemoveAll" {
-				if f, ok := loadedField(c.Args[0]); ok {
+				for _, f := range elemFields(c.Args[0]) {
 					removed[shortField(f)] = true
 				}
 			}
@@ -369,6 +371,129 @@ func normName(s string) string {
 
 // tolerantOnlyNotExist: in fn, every filesystem call after the first `skip` ones either returns its error,
 // or ignores it only when errors.Is(err, os.ErrNotExist).
+// elemFields: the struct fields a path operand stands for — the loaded field itself, or, for the element variable
+// of `for _, p := range [...]string{f.a, f.b, f.c}`, every field stored into the literal (the range must cover
+// all of its elements).
+func elemFields(v ssa.Value) []string {
+	if f, ok := loadedField(v); ok {
+		return []string{f}
+	}
+	var cell *ssa.Alloc
+	var index ssa.Value
+	var ia *ssa.IndexAddr
+	switch x := stripConv(v).(type) {
+	case *ssa.Index:
+		// range over an array value: t = *cell; t[i]
+		if u, ok := x.X.(*ssa.UnOp); ok && u.Op == token.MUL {
+			if a, ok := u.X.(*ssa.Alloc); ok {
+				// the array value must be read after the literal's element stores
+				cell, index = a, x.Index
+				for _, r := range *a.Referrers() {
+					if e, ok := r.(*ssa.IndexAddr); ok {
+						for _, rr := range *e.Referrers() {
+							if st, ok := rr.(*ssa.Store); ok && !instrDominates(st, u) {
+								return nil
+							}
+						}
+					}
+				}
+			}
+		}
+	case *ssa.UnOp:
+		if x.Op != token.MUL {
+			return nil
+		}
+		var ok bool
+		if ia, ok = x.X.(*ssa.IndexAddr); !ok {
+			return nil
+		}
+		index = ia.Index
+		switch y := ia.X.(type) {
+		case *ssa.Alloc:
+			cell = y
+		case *ssa.Slice:
+			if a, ok := y.X.(*ssa.Alloc); ok && y.Low == nil && y.High == nil {
+				cell = a
+			}
+		}
+	}
+	if cell == nil {
+		return nil
+	}
+	arr, ok := derefType(cell.Type()).Underlying().(*types.Array)
+	if !ok || !rangeIndexCovers(index, arr.Len()) {
+		return nil
+	}
+	got := map[int64]string{}
+	for _, r := range *cell.Referrers() {
+		e, ok := r.(*ssa.IndexAddr)
+		if !ok || e == ia {
+			continue
+		}
+		k, isConst := constInt(e.Index)
+		for _, rr := range *e.Referrers() {
+			if st, ok := rr.(*ssa.Store); ok && st.Addr == ssa.Value(e) {
+				f, isField := loadedField(st.Val)
+				if !isConst || !isField {
+					return nil
+				}
+				got[k] = f
+			}
+		}
+	}
+	if int64(len(got)) != arr.Len() {
+		return nil
+	}
+	var out []string
+	for i := int64(0); i < arr.Len(); i++ {
+		out = append(out, got[i])
+	}
+	return out
+}
+
+// rangeIndexCovers: idx is the index of a `for i := range <n elements>` loop in go/ssa's shape — idx = phi+1 with
+// phi starting at -1, tested `idx < n` in its own block with the body on the true edge.
+func rangeIndexCovers(idx ssa.Value, n int64) bool {
+	b, ok := idx.(*ssa.BinOp)
+	if !ok || b.Op != token.ADD {
+		return false
+	}
+	phi, ok := b.X.(*ssa.Phi)
+	if one, ok1 := constInt(b.Y); !ok || !ok1 || one != 1 || len(phi.Edges) < 2 {
+		return false
+	}
+	init := false
+	for _, e := range phi.Edges {
+		if k, ok := constInt(e); ok && k == -1 {
+			init = true
+		} else if e != ssa.Value(b) {
+			return false
+		}
+	}
+	blk := b.Block()
+	iff, ok := blk.Instrs[len(blk.Instrs)-1].(*ssa.If)
+	if !init || !ok {
+		return false
+	}
+	cond, ok := iff.Cond.(*ssa.BinOp)
+	if !ok || cond.Op != token.LSS || cond.X != ssa.Value(b) {
+		return false
+	}
+	if k, ok := constInt(cond.Y); ok {
+		return k == n
+	}
+	if c, ok := cond.Y.(*ssa.Call); ok && calleeName(&c.Call) == "builtin.len" {
+		if sl, ok := c.Call.Args[0].(*ssa.Slice); ok && sl.Low == nil && sl.High == nil {
+			if a, ok := sl.X.(*ssa.Alloc); ok {
+				if arr, ok := derefType(a.Type()).Underlying().(*types.Array); ok {
+					return arr.Len() == n
+				}
+			}
+		}
+	}
+	return false
+}
+
 func tolerantOnlyNotExist(P *Prog, fn *ssa.Function, skip int) bool {
 	n := 0
 	ok := true
